@@ -462,7 +462,7 @@ def units(tier, seed):
         keep = []
         for s in specs:
             f = s["family"]
-            if f == "cyclic" and s["n"] > 9 and (s["g"] % 5 != 0):
+            if f == "cyclic" and s["n"] > 9 and (s["g"] % 5 != 0) and not (s["n"] == 15 and s["g"] == 7):  # (15, g=7): witness of KF-C02-CYCLIC-DMIN-LARGE-K
                 continue
             if f == "bch" and s["mu"] > 4:
                 continue
